@@ -987,7 +987,9 @@ class BlockwiseRequest(BaseUnicastRequest, interfaces.Request):
                 block_cursor += 1
 
             while block1.size_exponent < size_exp:
-                block_cursor *= 2
+                if size_exp != 7:
+                    # (BERT counts in units of 1024 bytes just like szx 6)
+                    block_cursor *= 2
                 size_exp -= 1
 
             if not current_block1.opt.block1.more:
